@@ -260,6 +260,16 @@ def run(ctx):
         ctx.case(('t', repr(t), s, a, s2), got[0] != 'ok' or bool(got[1]), None)
         treqs.append([5, *comp.enc_term(t), *wire.estate(s), a, *wire.estate(s2)])
         tmeta.append((t, got, case))
+    # determinism / history independence: every reward question asked again, in another order, after all the other calls
+    order = list(range(len(rmeta)))
+    r.shuffle(order)
+    for i in order[:600 if ctx.tier == 'quick' else 6000]:
+        d, got, case = rmeta[i]
+        s, a, s2 = case['wire']
+        again = call(comp.build_reward(d), s, a, s2)
+        ctx.case(('again', i), True, None)
+        if again != got:
+            ctx.violation(f'{d["name"]} is not a function of (state, action, next state): asked again after other calls it returned {again!r} instead of {got!r}', case)
     answers = ctx.model(rreqs + treqs)
     if answers is None:
         return
